@@ -27,8 +27,10 @@ func c09HelperOne(t *testing.T, run *h.Run, c c09Case) {
 			NodeByName: map[string]*strategy.NodeItem{}, PodByNodeName: map[*strategy.NodeItem]*corev1.Pod{}}
 		for _, n := range nodes {
 			it := strategy.NewNodeItem(n, nil)
-			params.NodeByName[n.Name] = it
-			params.PodByNodeName[it] = pods[n.Name]
+			params.NodeByName[n.Name] = it // every listed node is in the name table
+			if len(n.Spec.Taints) == 0 {
+				params.PodByNodeName[it] = pods[n.Name] // only targeted nodes are in the per-node map
+			}
 		}
 		res, err := strategy.ManageDeployment(w.NewAPI(nil), eds, params, metav1.NewTime(now))
 		if err != nil || res == nil {
